@@ -220,7 +220,105 @@ def registry_names_exact(ctx, report, RULE='C10.R10'):
         report.error('%s: only %d registry name-lists found (anchor moved)' % (RULE, n))
 
 
-def decoders_by_evaluation(ctx, report):
+def factory_overrides(ctx, report, RULE='C10.R2'):
+    """A factory that does not inherit ``_parse`` of the generic fixed width decoder as it is (an override in the factory or in a
+    class between the two) is evaluated from its own statements, with the real enumeration behind it: every code of a member, its
+    neighbours, the ends of the code space and every integer the overriding class mentions decode to the member that carries that
+    very code, or are refused with InvalidValue; the reported length is the width."""
+    from ..miniexec import Evaluator, Native, NativeError, Raised, Unsupported, class_call_hook, ClassRef, exception_values
+    model = ctx.model
+    base = model.try_cls('NByteEnumParsable')
+    if base is None:
+        return
+    generic = base.methods.get('_parse')
+
+    class NotEnoughData(NativeError):
+        pass
+
+    class Parser(Native):
+        def __init__(self, data):
+            self.data, self.values, self.parsed_length = bytes(data), {}, 0
+
+        def parse_numeric(self, name, size, *a, **k):
+            if len(self.data) - self.parsed_length < size:
+                raise NotEnoughData()
+            self.values[name] = int.from_bytes(self.data[self.parsed_length:self.parsed_length + size], 'big')
+            self.parsed_length += size
+
+        def __getitem__(self, name):
+            return self.values[name]
+
+    errors = exception_values('InvalidValue')
+
+    def extra(n, ev):
+        if ast.unparse(n.func) == 'ParserBinary':
+            return Parser(ev.ev(n.args[0]))
+        return errors(n, ev)
+    for k in model.repo_classes():
+        if k is base or not k.is_subclass_of('NByteEnumParsable'):
+            continue
+        f = k.resolve('_parse')
+        if f is None or f is generic or f.abstract:
+            continue
+        gb, ge = k.resolve('get_byte_num'), k.resolve('get_enum_class')
+        if gb is None or gb.abstract or ge is None or ge.abstract:
+            continue        # not a factory yet: its concrete subclasses are visited
+        report.touch(f)
+
+        class Cls(Native):
+            _repo_class = k
+        hook = class_call_hook(k, extra, model)
+        me = Cls()
+        try:
+            width = Evaluator({'cls': me}, hook, None).function(gb.node)
+            enum = Evaluator({'cls': me}, hook, None).function(ge.node)
+            if not isinstance(width, int) or not isinstance(enum, ClassRef):
+                raise Unsupported('width / enumeration of the factory are not constants')
+            members = list(enum)
+            by_code = {}
+            for m in members:
+                code = getattr(m.value, 'code', None)
+                if isinstance(code, int):
+                    by_code.setdefault(code, m)
+            top = 256 ** width - 1
+            mentioned = {n.value for b in k.mro if isinstance(b, ClassInfo) and b is not base and not base.is_subclass_of(b.name)
+                         for n in ast.walk(b.node) if isinstance(n, ast.Constant) and isinstance(n.value, int) and not isinstance(n.value, bool)}
+            mentioned |= {int.from_bytes(n.value, 'big') for b in k.mro if isinstance(b, ClassInfo) and b is not base and not base.is_subclass_of(b.name)
+                          for n in ast.walk(b.node) if isinstance(n, ast.Constant) and isinstance(n.value, bytes) and 0 < len(n.value) <= width}
+            probes = set(by_code) | mentioned | {0, 1, top, top - 1}
+            probes |= {v + 1 for v in probes} | {v - 1 for v in probes}
+            bad, runs = [], 0
+            for v in sorted(x for x in probes if 0 <= x <= top):
+                runs += 1
+                want = by_code.get(v)
+                try:
+                    got = Evaluator({'cls': me, 'parsable': v.to_bytes(width, 'big') + b'\xaa'}, hook, None).function(f.node)
+                except Raised as e:
+                    if want is not None or 'InvalidValue' not in e.what:
+                        bad.append('the code 0x%x raises %s' % (v, e.what.split('(')[0]))
+                    continue
+                if not isinstance(got, tuple) or len(got) != 2:
+                    bad.append('the code 0x%x gives %r' % (v, got))
+                elif want is None:
+                    bad.append('the code 0x%x, which no member of %s carries, is decoded as %s (whose code is %s): composing writes another '
+                               'code than the one parsed' % (v, enum.info.name, getattr(got[0], 'name', got[0]), getattr(getattr(got[0], 'value', None), 'code', '?')))
+                elif got[0] is not want and getattr(getattr(got[0], 'value', None), 'code', None) != v:
+                    bad.append('the code 0x%x is decoded as %s instead of %s' % (v, getattr(got[0], 'name', got[0]), want.name))
+                elif got[1] != width:
+                    bad.append('a %d byte code is reported as %r bytes long' % (width, got[1]))
+            report.count(RULE, runs)
+            if bad:
+                report.add(RULE, f.construct + '@override[%s]' % k.name, '%s decodes through its own _parse: %d of %d evaluated codes: %s' % (
+                    k.name, len(bad), runs, bad[0]))
+            else:
+                report.sample({'rule': RULE, 'decoder': f.construct, 'factory': k.name,
+                               'verdict': 'override evaluated: the member with the equal code, InvalidValue otherwise', 'runs': runs})
+        except (Unsupported, Raised) as e:
+            report.undecided.append('%s: %s decodes through an overriding _parse (%s) that left the subset the evaluation understands (%s)' % (
+                RULE, k.name, f.construct, e))
+
+
+def decoders_by_evaluation(ctx, report, RULE='C10.R2'):
     """the generic decoders evaluated (sa.miniexec, helper methods included) on model enumerations:
 
     * NByteEnumParsable._parse for widths 1, 2, 3: the member whose code equals the big-endian number read, InvalidValue
@@ -310,13 +408,13 @@ def decoders_by_evaluation(ctx, report):
                     if 'NotEnoughData' not in e.what:
                         bad.append('a short buffer raises %s' % e.what.split('(')[0])
             decided.add('NByteEnumParsable')
-            report.count('C10.R2', runs)
+            report.count(RULE, runs)
             if bad:
-                report.add('C10.R2', f.construct + '@search', 'NByteEnumParsable: %d of %d evaluated inputs: %s' % (len(bad), runs, bad[0]))
+                report.add(RULE, f.construct + '@search', 'NByteEnumParsable: %d of %d evaluated inputs: %s' % (len(bad), runs, bad[0]))
             else:
-                report.sample({'rule': 'C10.R2', 'decoder': f.construct, 'verdict': 'evaluated: the member with the equal code, InvalidValue otherwise, length = width', 'runs': runs})
+                report.sample({'rule': RULE, 'decoder': f.construct, 'verdict': 'evaluated: the member with the equal code, InvalidValue otherwise, length = width', 'runs': runs})
         except Unsupported as e:
-            report.undecided.append('C10.R2: NByteEnumParsable._parse left the subset the evaluation understands (%s); decided on its syntax' % e)
+            report.undecided.append(RULE + ': NByteEnumParsable._parse left the subset the evaluation understands (%s); decided on its syntax' % e)
 
     # ---- prefix matched strings
     base = model.try_cls('StringEnumParsableBase')
@@ -369,13 +467,13 @@ def decoders_by_evaluation(ctx, report):
                 elif got[1] != len(want.value.code):
                     bad.append('%r: the reported length is %r, the code has %d characters' % (text, got[1], len(want.value.code)))
             decided.add(sub_name)
-            report.count('C10.R2', runs)
+            report.count(RULE, runs)
             if bad:
-                report.add('C10.R2', f.construct + '@search', '%s: %d of %d evaluated inputs: %s' % (sub_name, len(bad), runs, bad[0]))
+                report.add(RULE, f.construct + '@search', '%s: %d of %d evaluated inputs: %s' % (sub_name, len(bad), runs, bad[0]))
             else:
-                report.sample({'rule': 'C10.R2', 'decoder': '%s via %s' % (f.construct, sub_name), 'verdict': 'evaluated: longest code the input starts with', 'runs': runs})
+                report.sample({'rule': RULE, 'decoder': '%s via %s' % (f.construct, sub_name), 'verdict': 'evaluated: longest code the input starts with', 'runs': runs})
         except Unsupported as e:
-            report.undecided.append('C10.R2: StringEnumParsableBase._parse (%s) left the subset the evaluation understands (%s); decided on its syntax' % (sub_name, e))
+            report.undecided.append(RULE + ': StringEnumParsableBase._parse (%s) left the subset the evaluation understands (%s); decided on its syntax' % (sub_name, e))
     if {'StringEnumParsable', 'StringEnumCaseInsensitiveParsable'} <= decided:
         decided.add('StringEnumParsableBase')
 
@@ -440,13 +538,13 @@ def decoders_by_evaluation(ctx, report):
                 elif not (isinstance(got, tuple) and got[0] is want and got[1] == len(raw) + 1):
                     bad.append('%r is decoded as (%r, %r)' % (raw, getattr(got[0], 'name', got[0]), got[1]))
             decided.add('OpaqueEnumParsable')
-            report.count('C10.R2', runs)
+            report.count(RULE, runs)
             if bad:
-                report.add('C10.R2', f.construct + '@search', 'OpaqueEnumParsable: %d of %d evaluated inputs: %s' % (len(bad), runs, bad[0]))
+                report.add(RULE, f.construct + '@search', 'OpaqueEnumParsable: %d of %d evaluated inputs: %s' % (len(bad), runs, bad[0]))
             else:
-                report.sample({'rule': 'C10.R2', 'decoder': f.construct, 'verdict': 'evaluated: the member with the equal code', 'runs': runs})
+                report.sample({'rule': RULE, 'decoder': f.construct, 'verdict': 'evaluated: the member with the equal code', 'runs': runs})
         except Unsupported as e:
-            report.undecided.append('C10.R2: OpaqueEnumParsable._parse left the subset the evaluation understands (%s); decided on its syntax' % e)
+            report.undecided.append(RULE + ': OpaqueEnumParsable._parse left the subset the evaluation understands (%s); decided on its syntax' % e)
     return decided
 
 
@@ -455,6 +553,7 @@ def decoders(ctx, report):
     their ASTs."""
     model = ctx.model
     decided = decoders_by_evaluation(ctx, report)
+    factory_overrides(ctx, report)
     specs = [
         ('NByteEnumParsable', '_parse', 'code'),
         ('OpaqueEnumParsable', '_parse', 'code'),
